@@ -12,27 +12,27 @@ CHECKS = {
          "Case conversion itself is delegated to the Inflector crate (the documented engine); what is tested is the composition. Programs are sampled; compile errors are inconclusive, never violations. One known finding (flatten prefix missing from sample-group names) is listed in known_findings.json because the macro's own snapshot tests pin the defective output.",
          "DESIGN.md §2 C07"),
  "C10": ("stateful proptest (input/flush/guard sequences) against a reference map per flush epoch; real producer threads for the worker sink; termination by counting flush() calls on a probe",
-         "Generated sequences of keyed inputs, flushes and merge-on-drop guards through KeyedAggregator, TeeSink (incl. a hand-written colliding-hash Cow key and a non-aggregating branch), WorkerSink with 1-4 producers, embedded Aggregate and MutexSink: one aggregate per key per flush with exact sums / distributions / keep-last, conservation over all epochs, flush barrier, worker termination after the last handle is dropped.",
+         "Generated sequences of keyed inputs, flushes and merge-on-drop guards through KeyedAggregator, TeeSink (incl. a hand-written colliding-hash Cow key and a non-aggregating branch), WorkerSink with 1-4 producers and a 1 h / 0 / 100 us / 2 ms periodic flush, embedded Aggregate and MutexSink: one aggregate per key per flush with exact sums / distributions / keep-last, conservation over all epochs, flush barrier, worker termination after the last handle is dropped.",
          "Reference accumulator is a BTreeMap written from the docs; worker/producer interleavings sampled natively.",
          "DESIGN.md §2 C10"),
  "C17": ("stateful proptest histories over worker threads and tokio runtimes against a reference routing state machine; append-vs-detach race; child processes for forget()",
          "Model-based: generated histories of attach / detach / thread-local and runtime test-sink installs / appends (incl. every documented panic path) on a harness-declared global and on ServiceMetrics; tagged collectors must hold exactly the model's (destination, entry) list after every append; appends racing with a detach are accounted for exactly; forget() histories run in child processes.",
          "One history at a time per process (statics); thread/runtime identity by index; races sampled.",
          "DESIGN.md §2 C17"),
- "C20": ("proptest multi-phase scripts with real updater/reader threads; conservation invariants over all readouts; RecLog replay of each readout",
-         "Generated update scripts (counter increments, histogram samples, gauge sets, describe calls) run on 1-8 threads while a reader thread calls readout() at generated points: counter deltas sum to the increments, histogram bucket counts to the samples (values within bucket error), gauges read the last set value, every readout writes names / label-dimensions / described units / injected timestamp and is accepted by Emf::all_validations.",
+ "C20": ("proptest multi-phase scripts with real updater/reader threads; conservation invariants over all readouts; RecLog replay of each readout; the MetricReporter task on a tokio runtime with a capturing sink",
+         "Generated update scripts (counter increments, histogram samples, gauge sets, describe calls) run on 1-8 threads while a reader thread calls readout() at generated points: counter deltas sum to the increments, histogram bucket counts to the samples (values within bucket error), gauges read the last set value, every readout writes names / label-dimensions / described units (all 18 facade units) / injected timestamp and is accepted by Emf::all_validations; through MetricReporter the periodic readouts plus the final one at shutdown carry every update.",
          "Update/readout interleavings sampled natively; one writer per gauge key; units asserted at quiescent points.",
          "DESIGN.md §2 C20"),
  "C06": ("exhaustive enumeration of drop orders (bounded counts) + proptest long sequences + thread-distributed final drops; 15-line reference model of the keep-alive protocol; counting sink with started-flag snapshots",
-         "Model-based: every well-formed sequence of guard/handle/owner creations and drops up to length 8 (quick) / 10 (thorough) is executed on a real #[metrics] entry with append_on_drop, the sink's count compared with the model after every operation; random sequences to length 60; remaining objects dropped by 2-4 racing threads with a generated schedule, the append instant checked against the model condition.",
+         "Model-based: every well-formed sequence of guard/handle/owner creations and drops up to length 8 (quick) / 10 (thorough) is executed on a real #[metrics] entry with append_on_drop, the sink's count compared with the model after every operation; random sequences to length 60 (final drops also during panic unwinding); remaining objects dropped by 2-4 racing threads with a generated schedule, the append instant checked against the model condition.",
          "Arc/Mutex internals run natively; thread placement is sampled. For concurrent drops only a necessary condition (flags set before each drop) is asserted.",
          "DESIGN.md §2 C06"),
  "C13": ("exhaustive enumeration of slot op sequences + proptest + two-thread drop races; reference model of wait/discard semantics",
-         "Model-based: all sequences up to length 6 (quick) / 7 (thorough) of open(wait|discard) / mutate / drop guard / drop parent / force-flush / wait_for_data on a real #[metrics] entry with a Slot and a LazySlot; sink count compared after every op and the emitted entry's fields against the model; parent and guards dropped on different threads with generated perturbation.",
+         "Model-based: all sequences up to length 6 (quick) / 7 (thorough) of open(wait|discard) / mutate / drop guard / drop parent / force-flush / wait_for_data on a real #[metrics] entry with a Slot and a LazySlot; sink count compared after every op and the emitted entry's fields against the model; parent and guards dropped on different threads with generated perturbation, inside a tokio task with an exhausted cooperative budget, and during panic unwinding.",
          "tokio oneshot / Arc internals run natively; interleavings sampled.",
          "DESIGN.md §2 C13"),
  "C01": ("proptest-generated producer scripts + fuel/fault/jitter scripts on real threads; exactly-once / order invariant over a global event log",
-         "Schedule- and input-sampling: 1-6 real producer threads run generated op scripts against the real queue and writer thread; stream results, writer progress (fuel gate) and perturbation points are part of the generated case. After shutdown the event log must show every appended entry exactly once, per-producer order, only rate-limited in-band reports as extras.",
+         "Schedule- and input-sampling: 1-6 real producer threads run generated op scripts against the real queue and writer thread; stream results, writer progress (fuel gate), perturbation points and whether shut_down() meets a backlog are part of the generated case. After shutdown the event log must show every appended entry exactly once, per-producer order, only rate-limited in-band reports as extras.",
          "Interleavings inside crossbeam/std/tokio primitives are sampled natively, not enumerated; absence is not claimed. Trusts the event log (one mutex, linearised).",
          "DESIGN.md §2 C01"),
  "C04": ("stateful proptest over the real WakerTracker (hook H2a) with a model ring buffer + thread-level fuel-gated runs; barrier invariant over the event log; liveness by counting pops",
@@ -40,19 +40,19 @@ CHECKS = {
          "Level 1 assumes the preconditions documented in the source for WakerTracker's caller; the send/try_recv/park interleaving is only exercised natively at level 2.",
          "DESIGN.md §2 C04"),
  "C05": ("stateful proptest histories (append/clone/drop/flush/forget/drop-handle, typed, boxed, global sink) with a fuel-gated stream; invariant over the event log; termination decided by counting periodic flushes",
-         "Generated shutdown histories on real threads: the join/attach handle is dropped while entries are still queued, or forgotten with all queue handles dropped; the log must show drain, flush-after-last-entry, stream drop, and silence afterwards; the forgotten queue must close its stream before 60 further periodic flushes.",
+         "Generated shutdown histories on real threads: the join/attach handle is dropped while entries are still queued (also by a guard object during panic unwinding, also while another thread keeps appending to the global), or forgotten with all queue handles dropped (also while the writer is inside a periodic flush); the log must show drain, flush-after-last-entry, stream drop, and silence afterwards; the forgotten queue must close its stream before 60 further periodic flushes.",
          "Thread interleavings sampled; 'runs forever' is decided by counting the writer's own periodic flushes, wall-clock only yields inconclusive.",
          "DESIGN.md §2 C05"),
  "C09": ("proptest append/progress scripts on a stalled (fuel-gated) writer, 1-4 producers; sound necessary conditions N1-N5 over the event log; overflow counter from a local metrics recorder",
          "Generated sequences of appends interleaved with exact amounts of writer progress (including none) for capacities 1-16: order kept, an entry lost only if >= capacity newer ones followed, newest entries always survive a stalled writer, overflow counter == losses, appends never block.",
          "The survivor set is racy by one entry by design (writer may hold the oldest): only schedule-independent conditions are asserted.",
          "DESIGN.md §2 C09"),
- "C02": ("proptest-generated entries x formatter configs; strict-JSON validity predicate; libFuzzer target with the same oracle",
+ "C02": ("proptest-generated entries x formatter configs, single calls and sequences on one formatter with failing writers; strict-JSON validity predicate; libFuzzer targets emf_oracle / emf_sequence with the same oracle inside (thorough tier)",
          "Generated-input search: arbitrary entry call sequences x all formatter configurations x sampling, every accepted output parsed by an independent strict RFC 8259 parser and checked for the _aws shape; rejected => zero bytes. Finds and shrinks any input that yields malformed output; does not prove absence.",
          "Trusts vh::json (strict parser, unit-tested) and proptest's generators; writer is an in-memory Vec.",
          "DESIGN.md §2 C02"),
  "C03": ("proptest valid-by-construction entries vs independent reference interpreter (RefEmf), multiset comparison of parsed records",
-         "Generated-input search against a reference model: every accepted output is parsed and compared, as a multiset of records, with an independent interpretation of the recorded call sequence (values, Values/Counts, units, resolution, namespaces, dimension sets, timestamp, sampling weight). Both directions: nothing missing, nothing extra.",
+         "Generated-input search against a reference model: every accepted output is parsed and compared, as a multiset of records, with an independent interpretation of the recorded call sequence, on a fresh formatter and on one that has already formatted (accepted or rejected) other entries (values, Values/Counts, units, resolution, namespaces, dimension sets, timestamp, sampling weight). Both directions: nothing missing, nothing extra.",
          "Trusts RefEmf (written from the docs and in-tree expected outputs, no shared code with the formatter), vh::json, RecLog (cross-checked against test_util::to_test_entry in every case).",
          "DESIGN.md §2 C03"),
  "C08": ("proptest: valid-by-construction entries + injected defects; differential validated vs unvalidated bytes; duplicate-member validity predicate; both build profiles",
@@ -71,12 +71,12 @@ CHECKS = {
          "Generated-input search against a reference transform: arbitrary entries under 1-4 dynamically chosen entry wrappers (15 kinds), 0-3 statically nested value wrappers (10 kinds), and stream/format-level wrappers; the recorded call sequence and sample group must equal the documented transform of the plain entry's.",
          "Trusts RecLog (records every call in order) and the 20-line transform model; stacks that the library documents as panicking (flags of different families) are not generated.",
          "DESIGN.md §2 C15"),
- "C16": ("proptest fault scripts + exhaustive k / fault-position enumeration; reference lines from a perfect writer",
+ "C16": ("proptest fault scripts + exhaustive k / fault-position enumeration; reference lines from a perfect writer; libFuzzer target io_faults with the same oracles (thorough tier)",
          "Fault injection by generated writer scripts (accept k bytes of a vectored write for every k, Interrupted / Ok(0) / hard error at every call index, flush errors) on all record shapes; bytes received must be exactly the reference lines (or complete lines + a prefix on a hard error); sink level: every later entry reaches every (tee'd) stream exactly once, no panic.",
-         "Trusts the scripted writer/stream (harness-owned), reference = same entry through a fresh formatter and a perfect writer. The BackgroundQueue half of the sink clause is decided under C01/C05.",
+         "Trusts the scripted writer/stream (harness-owned), reference = same entry through a fresh formatter and a perfect writer. The BackgroundQueue half of the sink clause reuses the C01 driver and oracle (sub-check c16-background-queue).",
          "DESIGN.md §2 C16"),
  "C11": ("proptest value multisets + exhaustive bucket-boundary sweep; run-length pairing oracle; differential atomic vs non-atomic; re-aggregation fixpoint",
-         "Generated-input search: value multisets built on the 976-bucket layout (every boundary and neighbour exhaustively), repeated observations up to 2^40 occurrences, u64/f64/Duration sources with unit conversion, 1-8 concurrent recorders; oracle = count conservation, per-observation error bound by sorted run-length pairing, bit-identical atomic/non-atomic outputs, exact sort-and-merge output, re-aggregation fixpoint.",
+         "Generated-input search: value multisets built on the 976-bucket layout (every boundary and neighbour exhaustively), repeated observations up to 2^40 occurrences, u64/f64/Duration sources with unit conversion, 1-8 concurrent recorders; oracle = count conservation, per-observation error bound by sorted run-length pairing, bit-identical atomic/non-atomic outputs, exact sort-and-merge output, re-aggregation fixpoint (bitwise for the exponential strategies, rank-wise within 4 ulps of total/occurrences for sort-and-merge).",
          "Trusts the harness' own bucket-layout computation (only used to aim inputs) and f64 arithmetic for the bound; concurrent add_value interleavings are sampled natively.",
          "DESIGN.md §2 C11"),
  "C18": ("exhaustive enumeration of op sequences (model-based) + proptest long sequences; manual clock; reference model of accumulated spans",
@@ -84,7 +84,7 @@ CHECKS = {
          "Trusts the manual clock (own Time impl, cross-run with the in-tree fake) and exact Duration arithmetic.",
          "DESIGN.md §2 C18"),
  "C19": ("type-level enumeration of all 435 convertible unit pairs x proptest magnitudes; exact integer scale table oracle",
-         "Every ordered convertible pair (3x3 time, 20x20 bit/byte(/s), None->26) is instantiated at type level and driven with generated observation lists through WithUnit, Distribution, Mean, Option, round trips and the #[metrics(unit=..)] attribute; oracle = own exact integer scale table (4 ulp), unit names, occurrence preservation, validation errors for strings / lying values.",
+         "Every ordered convertible pair (3x3 time, 20x20 bit/byte(/s), None->26) is instantiated at type level and driven with generated observation lists through WithUnit, Distribution, Mean, Option, round trips and the #[metrics(unit=..)] attribute; oracle = own exact integer scale table (4 ulp), unit names, occurrence preservation, validation errors for strings / values that write another kind, another scale of the same kind, or the sibling kind.",
          "Trusts the scale table written from the CloudWatch unit definitions; overflow/underflow of intermediates is out of scope (not rounding).",
          "DESIGN.md §2 C19"),
 }
@@ -103,12 +103,14 @@ manifest = {
    "add_only": True,
  },
  "engines": [
+   {"name": "vh-fuzz", "path": "harness/vh/fuzz", "serves_properties": ["C02", "C16"],
+    "kind_free_text": "cargo-fuzz / libFuzzer targets emf_oracle, emf_sequence, io_faults: bytes decoded with arbitrary::Unstructured into the same case types the proptest checks use, the same oracle functions run inside the target (a violated oracle panics with a VIOLATION text); driven by bin/fuzzrun.sh from the thorough tier"},
    {"name": "vh", "path": "harness/vh", "serves_properties": sorted(BUILT),
     "kind_free_text": "proptest 1.11 TestRunner driven from a binary (vcheck): fixed seeds from VERIF_SEED, classification + distinct non-trivial counting, shrinking, JSON replay files, known-findings, evidence writer; reference models / strict JSON / recording writers as oracles"},
  ],
  "checks": [],
  "not_applicable": [],
- "notes": "bin/vcheck <ID> <tier> rebuilds the harness against /repo's working tree (cargo path dependencies) before every run. Exit 0 held / 1 VIOLATION / 2 inconclusive. Replays under replays/regress/<ID>/ run first on every invocation.",
+ "notes": "bin/vcheck <ID> <tier> rebuilds the harness against /repo's working tree (cargo path dependencies) before every run. Exit 0 held / 1 VIOLATION / 2 inconclusive. Replays under replays/regress/<ID>/ run first on every invocation. The thorough tier of C02 and C16 additionally runs libFuzzer campaigns (cargo +nightly fuzz, harness/vh/fuzz, oracle inside the target; VERIF_FUZZ_RUNS executions each, default 1.5 M).",
 }
 for pid in ALL:
     if pid in CHECKS:
